@@ -265,6 +265,12 @@ class VectorContainer:
         return super().__getattribute__(name)
 
     def __setattr__(self, name: str, value: Union[Any, Sequence[Any]]) -> None:
+        # Properties e.g. `values` have setters of their own (and are not new
+        # attributes, whether or not `strict=True`)
+        if isinstance(getattr(type(self), name, None), property):
+            super().__setattr__(name, value)
+            return
+
         # Error on attempt to add an attribute if `strict=True`
         if (
             name != 'strict'
